@@ -14,7 +14,7 @@ ADAPTERS = frozenset({"map", "filter", "filter_map", "enumerate", "cloned", "cop
             "skip_while", "step_by", "fuse", "into_par_iter", "par_iter", "as_ref", "deref", "unwrap", "expect", "branch"})
 COMMUTATIVE = {"any", "all", "count", "sum", "max", "min", "max_by", "min_by", "max_by_key", "min_by_key", "product", "len", "is_empty"}
 FIRST_MATCH = {"find", "position", "find_map", "next", "first", "last", "nth", "find_any", "find_first", "rposition", "min_by_key_first"}
-CONSUMERS = COMMUTATIVE | FIRST_MATCH | {"collect", "for_each", "fold", "reduce", "extend", "from_iter", "try_for_each", "unzip", "partition", "collect_into_vec"}
+CONSUMERS = COMMUTATIVE | FIRST_MATCH | {"collect", "for_each", "fold", "try_fold", "reduce", "extend", "from_iter", "try_for_each", "unzip", "partition", "collect_into_vec"}
 KEYED_TYPES = ("BTreeMap<", "BTreeSet<", "HashMap<", "HashSet<", "collections::BTreeMap", "collections::BTreeSet",
                "collections::HashMap", "collections::HashSet", "serde_json::Map")
 UNORDERED_TYPES = ("HashMap<", "HashSet<", "hash_map::", "hash_set::", "collections::HashMap", "collections::HashSet")
